@@ -1,10 +1,256 @@
-(* C19 — property theorems only.  Proofs live in Proofs/FilesProofs.v. *)
+(* C19 — property theorems only.  Proofs live in Proofs/FilesProofs.v and
+   Proofs/FilesDeployProofs.v.  All statements are for any number of generators in any
+   listing order, any old map, any contents. *)
 From Coq Require Import List String Bool Arith ZArith Permutation.
-From Annet Require Import Base.Str Model.Files Spec.P_C19 Proofs.FilesProofs.
+From Annet Require Import Base.Str Model.Files Spec.P_C19 Proofs.FilesProofs Proofs.FilesDeployProofs.
 Import ListNotations.
 Open Scope string_scope.
 
+(* ------------------------------------------------------------------ winning generator *)
+
+(* new_files()[path] is the output and the reload commands of the highest-priority generator *)
+Theorem C19_argmax :
+  forall etck gens g,
+    distinct_prios gens = true -> In g gens -> g_path g <> "" ->
+    (forall h, In h gens -> g_path h = g_path g -> (g_prio h <= g_prio g)%Z) ->
+    lookup (g_path g) (new_files false (run_file_generators etck gens)) =
+    Some (g_out g, reload_cmds etck (g_path g) (g_reload g)).
+Proof. exact argmax. Qed.
+Print Assumptions C19_argmax.
+
+(* ... and nothing else is planned *)
+Theorem C19_argmax_only :
+  forall etck gens p o r,
+    distinct_prios gens = true ->
+    lookup p (new_files false (run_file_generators etck gens)) = Some (o, r) ->
+    exists g, In g gens /\ g_path g = p /\ p <> "" /\ o = g_out g /\
+              r = reload_cmds etck p (g_reload g) /\
+              forall h, In h gens -> g_path h = p -> (g_prio h <= g_prio g)%Z.
+Proof. exact argmax_only. Qed.
+Print Assumptions C19_argmax_only.
+
+(* as a dict, new_files(safe) is the declarative reference `planned` *)
+Theorem C19_planned :
+  forall etck safe gens,
+    distinct_prios gens = true ->
+    nf_eqb (new_files safe (run_file_generators etck gens)) (planned etck safe gens) = true.
+Proof. exact new_files_planned. Qed.
+Print Assumptions C19_planned.
+
+(* regardless of the order generators are listed in *)
+Theorem C19_perm :
+  forall etck safe gens gens',
+    Permutation gens gens' -> distinct_prios gens = true ->
+    (forall p, lookup p (new_files safe (run_file_generators etck gens)) =
+               lookup p (new_files safe (run_file_generators etck gens'))) /\
+    nf_eqb (new_files safe (run_file_generators etck gens))
+           (new_files safe (run_file_generators etck gens')) = true.
+Proof.
+  intros etck safe gens gens' HP Hd. split.
+  - intro p. apply planned_perm_lookup; assumption.
+  - apply planned_perm; assumption.
+Qed.
+Print Assumptions C19_perm.
+
+(* safe mode keeps exactly the winners that are safe *)
+Theorem C19_safe_filter :
+  forall etck gens g,
+    distinct_prios gens = true -> In g gens -> g_path g <> "" ->
+    (forall h, In h gens -> g_path h = g_path g -> (g_prio h <= g_prio g)%Z) ->
+    lookup (g_path g) (new_files true (run_file_generators etck gens)) =
+    if g_safe g then Some (g_out g, reload_cmds etck (g_path g) (g_reload g)) else None.
+Proof. exact safe_argmax. Qed.
+Print Assumptions C19_safe_filter.
+
+(* ------------------------------------------------------------------ upload / reload / bytes,
+   for any pluggable differ whose emptiness is its own notion `deq` of "same file" *)
+
+Theorem C19_upload_iff :
+  forall (differ : differ_t) (deq : string -> option string -> string -> bool),
+    (forall p o n, differ p o n = [] <-> deq p o n = true) ->       (* H_diff *)
+    (forall p o n, differ p o n <> [""]) ->                          (* "\n".join(lines) is truthy *)
+    forall m old nf,
+      files_of_pr (parse_result differ m old nf) =
+      map (fun e => (fst e, fst (snd e)))
+          (filter (fun e => negb (deq (fst e) (old_get old (fst e)) (fst (snd e))) || force_reload m) nf).
+Proof. exact upload_iff. Qed.
+Print Assumptions C19_upload_iff.
+
+Theorem C19_reload_iff :
+  forall (differ : differ_t) (deq : string -> option string -> string -> bool),
+    (forall p o n, differ p o n = [] <-> deq p o n = true) ->
+    (forall p o n, differ p o n <> [""]) ->
+    forall m old nf,
+      keys (cmds_of_pr (parse_result differ m old nf)) =
+      (if enable_reload m then keys (files_of_pr (parse_result differ m old nf)) else []) /\
+      forall p c, In (p, c) (cmds_of_pr (parse_result differ m old nf)) ->
+        enable_reload m = true /\
+        exists b, In (p, (b, c)) nf /\ In (p, b) (files_of_pr (parse_result differ m old nf)).
+Proof.
+  intros differ deq H1 H2 m old nf. split.
+  - apply (reload_keys differ deq H1 H2).
+  - intros p c. apply (reload_cmd differ deq H1 H2).
+Qed.
+Print Assumptions C19_reload_iff.
+
+Theorem C19_bytes :
+  forall (differ : differ_t) (deq : string -> option string -> string -> bool),
+    (forall p o n, differ p o n = [] <-> deq p o n = true) ->
+    (forall p o n, differ p o n <> [""]) ->
+    forall m old nf p b,
+      In (p, b) (files_of_pr (parse_result differ m old nf)) -> exists r, In (p, (b, r)) nf.
+Proof. exact bytes. Qed.
+Print Assumptions C19_bytes.
+
+Theorem C19_diff_iff :
+  forall (differ : differ_t) (deq : string -> option string -> string -> bool),
+    (forall p o n, differ p o n = [] <-> deq p o n = true) ->
+    forall old nf,
+      keys (pc_diff differ old nf) =
+      map fst (filter (fun e => negb (deq (fst e) (old_get old (fst e)) (fst (snd e)))) nf).
+Proof. exact pc_diff_keys. Qed.
+Print Assumptions C19_diff_iff.
+
+(* both modelled differs satisfy the hypotheses, each with its own `deq` *)
+Theorem C19_differ_laws :
+  (forall p o n, differ_lines p o n = [] <-> list_str_eqb (lines_of o) (splitlines n) = true) /\
+  (forall p o n, differ_lines p o n <> [""]) /\
+  (forall p o n, differ_exact p o n = [] <-> o = Some n) /\
+  (forall p o n, differ_exact p o n <> [""]).
+Proof.
+  repeat split; try apply differ_lines_law; try apply differ_lines_noblank; try apply differ_exact_noblank.
+  - intro H. apply differ_exact_law in H. apply opt_str_eqb_eq. exact H.
+  - intro H. apply differ_exact_law. apply opt_str_eqb_eq. exact H.
+Qed.
+Print Assumptions C19_differ_laws.
+
+(* ------------------------------------------------------------------ the whole property *)
+
+(* any differ with "diff empty <-> contents equal": the full predicate holds *)
+Theorem C19_holds_exact :
+  forall differ : differ_t,
+    (forall p o n, differ p o n = [] <-> o = Some n) ->
+    (forall p o n, differ p o n <> [""]) ->
+    forall x, wf_C19 x = true -> P_C19 x (model differ x) = true.
+Proof. exact holds_exact. Qed.
+Print Assumptions C19_holds_exact.
+
+(* the repaired UnifiedFileDiffer (fixes/C19-unified-differ-eol.patch) *)
+Theorem C19_holds_fixed :
+  forall x, wf_C19 x = true -> P_C19 x (model differ_exact x) = true.
+Proof. exact holds_differ_exact. Qed.
+Print Assumptions C19_holds_fixed.
+
+(* the shipped UnifiedFileDiffer (splitlines() comparison): refuted *)
 Theorem C19_holds_refuted :
   exists x, wf_C19 x = true /\ P_C19 x (model differ_lines x) = false.
 Proof. exact holds_lines_refuted. Qed.
 Print Assumptions C19_holds_refuted.
+
+(* the gap between "contents differ" and "line lists differ": newline at end of file, CRLF vs
+   LF, absent vs empty — the shipped differ is empty, the repaired one is not *)
+Theorem C19_lines_gap_refuted :
+  forall w, In w gap_witnesses ->
+    fst w <> Some (snd w) /\ differ_lines "/etc/a" (fst w) (snd w) = [] /\
+    differ_exact "/etc/a" (fst w) (snd w) <> [].
+Proof. exact lines_gap. Qed.
+Print Assumptions C19_lines_gap_refuted.
+
+Theorem C19_differ_lines_not_exact :
+  ~ (forall p o n, differ_lines p o n = [] <-> o = Some n).
+Proof. exact differ_lines_not_exact. Qed.
+Print Assumptions C19_differ_lines_not_exact.
+
+(* ... so that with the shipped differ nothing is uploaded or shown for the three classes,
+   while the reference uploads the generated content *)
+Theorem C19_upload_iff_refuted :
+  forall w, In w gap_witnesses ->
+    let x := x_of (fst w) (snd w) RYes in
+    wf_C19 x = true /\
+    o_deploy (model differ_lines x) = None /\ o_diff (model differ_lines x) = [] /\
+    spec_files RYes (i_old x) (sel_of x) = [("/etc/a", snd w)] /\
+    P_files x (model differ_lines x) = false /\ P_diff x (model differ_lines x) = false /\
+    P_C19 x (model differ_exact x) = true.
+Proof. exact upload_lines_refuted. Qed.
+Print Assumptions C19_upload_iff_refuted.
+
+(* where the shipped differ is nevertheless right: LF-terminated texts without other line
+   boundaries, file present on the device (partial: the guard excludes exactly the gap) *)
+Theorem C19_splitlines_inj_unix :
+  forall s t, unix_text s = true -> unix_text t = true -> splitlines s = splitlines t -> s = t.
+Proof. exact splitlines_inj_unix. Qed.
+Print Assumptions C19_splitlines_inj_unix.
+
+Theorem C19_upload_iff_shipped_partial :
+  forall m old nf,
+    unix_case old nf ->
+    files_of_pr (parse_result differ_lines m old nf) = spec_files m old nf /\
+    cmds_of_pr (parse_result differ_lines m old nf) = spec_cmds m old nf /\
+    keys (pc_diff differ_lines old nf) = spec_diff old nf.
+Proof. exact upload_iff_lines_unix. Qed.
+Print Assumptions C19_upload_iff_shipped_partial.
+
+(* ------------------------------------------------------------------ non-vacuity *)
+
+Definition ex_gens : list gen :=
+  [ Gen "/etc/a" 10 ("low" ++ LF) "r-low" true;
+    Gen "/etc/b" 5 ("b" ++ LF) "" true;
+    Gen "/etc/a" 200 ("high" ++ LF) "r-high" false;
+    Gen "" 999 "skipped" "" true;
+    Gen "/etc/a" 100 ("mid" ++ LF) "r-mid" true ].
+
+Example C19_example_guard : distinct_prios ex_gens = true.
+Proof. vm_compute. reflexivity. Qed.
+
+(* the guard of C19_argmax is met by the third generator, and the conclusion is what it says *)
+Example C19_example_argmax :
+  let g := Gen "/etc/a" 200 ("high" ++ LF) "r-high" false in
+  In g ex_gens /\ is_winner ex_gens g = true /\
+  new_files false (run_file_generators false ex_gens) =
+    [("/etc/a", (("high" ++ LF)%string, "r-high")); ("/etc/b", (("b" ++ LF)%string, ""))] /\
+  new_files true (run_file_generators false ex_gens) = [("/etc/b", (("b" ++ LF)%string, ""))] /\
+  new_files false (run_file_generators true ex_gens) =
+    [("/etc/a", (("high" ++ LF)%string, ("r-high" ++ LF ++ "/usr/bin/etckeeper commitreload /etc/a")%string));
+     ("/etc/b", (("b" ++ LF)%string, "/usr/bin/etckeeper commitreload /etc/b"))].
+Proof. cbn zeta. split; [right; right; left; reflexivity|]. repeat split; vm_compute; reflexivity. Qed.
+
+Example C19_example_perm :
+  Permutation ex_gens (rev ex_gens) /\
+  new_files false (run_file_generators false (rev ex_gens)) =
+    [("/etc/a", (("high" ++ LF)%string, "r-high")); ("/etc/b", (("b" ++ LF)%string, ""))].
+Proof. split; [apply Permutation_rev | vm_compute; reflexivity]. Qed.
+
+(* equal priorities are outside the guard: the first listed wins, so the order matters *)
+Example C19_example_tie_is_order_dependent :
+  let a := Gen "/p" 1 "A" "" true in let b := Gen "/p" 1 "B" "" true in
+  distinct_prios [a; b] = false /\
+  new_files false (run_file_generators false [a; b]) = [("/p", ("A", ""))] /\
+  new_files false (run_file_generators false [b; a]) = [("/p", ("B", ""))].
+Proof. repeat split; vm_compute; reflexivity. Qed.
+
+Definition ex_input (m : rmode) : input :=
+  In_ ex_gens false false
+      [("/etc/a", Some ("high" ++ LF)%string); ("/etc/b", Some ("old" ++ LF)%string)] m.
+
+Example C19_example_holds :
+  wf_C19 (ex_input RYes) = true /\
+  o_deploy (model differ_exact (ex_input RYes)) = Some ([("/etc/b", ("b" ++ LF)%string)], [("/etc/b", "")]) /\
+  o_deploy (model differ_exact (ex_input RNo)) = Some ([("/etc/b", ("b" ++ LF)%string)], []) /\
+  o_deploy (model differ_exact (ex_input RForce)) =
+    Some ([("/etc/a", ("high" ++ LF)%string); ("/etc/b", ("b" ++ LF)%string)],
+          [("/etc/a", "r-high"); ("/etc/b", "")]) /\
+  o_diff (model differ_exact (ex_input RYes)) = [("/etc/b", false)].
+Proof. repeat split; vm_compute; reflexivity. Qed.
+
+(* the guard of C19_upload_iff_shipped_partial is met by a case that uploads one of two files *)
+Example C19_example_unix_case :
+  unix_case (i_old (ex_input RYes)) (new_files false (run_file_generators false ex_gens)) /\
+  files_of_pr (parse_result differ_lines RYes (i_old (ex_input RYes))
+                 (new_files false (run_file_generators false ex_gens))) = [("/etc/b", ("b" ++ LF)%string)].
+Proof.
+  split; [|vm_compute; reflexivity].
+  intros e He. vm_compute in He. destruct He as [He|[He|[]]]; subst e; cbn [fst snd]; split;
+    try (vm_compute; reflexivity).
+  - exists ("high" ++ LF)%string. split; vm_compute; reflexivity.
+  - exists ("old" ++ LF)%string. split; vm_compute; reflexivity.
+Qed.
